@@ -37,7 +37,16 @@ pub fn orders(n: usize) -> Vec<(&'static str, Vec<usize>)> {
         m += 1;
     }
     let stride: Vec<usize> = (0..n).map(|i| (i * m + n / 3) % n).collect();
-    vec![("asc", asc), ("desc", desc), ("inside-out", inside), ("zigzag", zig), ("stride", stride)]
+    // nearly sorted: ascending / descending with every block of three reversed (each new key lands one to three
+    // places away from the end it approaches - the case tail fast paths and "mostly sorted input" shortcuts meet)
+    let mut near_asc = vec![];
+    for b in (0..n).step_by(3) {
+        for i in (b..(b + 3).min(n)).rev() {
+            near_asc.push(i);
+        }
+    }
+    let near_desc: Vec<usize> = near_asc.iter().map(|&i| n - 1 - i).collect();
+    vec![("asc", asc), ("desc", desc), ("inside-out", inside), ("zigzag", zig), ("stride", stride), ("near-asc", near_asc), ("near-desc", near_desc)]
 }
 fn gcd(a: usize, b: usize) -> usize {
     if b == 0 { a } else { gcd(b, a % b) }
